@@ -213,6 +213,27 @@ def leg_js_templates(res, spec):
             q, proj, pred = T[n % len(T)]
             reqs.append({'query': q, 'input': A, 'join': None, 'input_cols': None, 'join_cols': None})
             meta.append((q, A, [proj(r, i + 1) for i, r in enumerate(A) if pred is None or pred(r, i + 1)]))
+        # variables that occur ONLY inside a template literal of one clause (plain aN / bN / column-name variables, the clause being WHERE, ORDER BY,
+        # the select list, an UPDATE assignment): each of them is still a reference to the current record
+        B = [['a', 'J'], ['b', 'K'], ['a', 'L']]
+        T2 = [
+            ("select a3 where `${a1}-${a2}` == 'a-b'", None, None, lambda A: [[r[2]] for r in A if (r[0], r[1]) == ('a', 'b')]),
+            ("select a[3], NR where a1 != 'b' && `<${a2}>` != '<b>'", None, None, lambda A: [[r[2], i + 1] for i, r in enumerate(A) if r[0] != 'b' and r[1] != 'b']),
+            ("select a2 where `${a3}`.length == 1", None, None, lambda A: [[r[1]] for r in A if len(r[2]) == 1]),
+            ("select NR where `${a.v}` == 'a' || `${a.w}${a.k}` == 'ab'", ['k', 'v', 'w'], None, lambda A: [[i + 1] for i, r in enumerate(A) if r[1] == 'a' or r[2] + r[0] == 'ab']),
+            ("select a.k where `${a.v}|${a['w']}` != 'a|a'", ['k', 'v', 'w'], None, lambda A: [[r[0]] for r in A if (r[1], r[2]) != ('a', 'a')]),
+            ("select a1, b2 join b on a1 == b1 where `${b2}` != 'J'", None, B, lambda A: [[r[0], b[1]] for r in A for b in B if b[0] == r[0] and b[1] != 'J']),
+            ("select a2, b1 join b on a1 == b1 where `${a3}${b1}` != 'aa'", None, B, lambda A: [[r[1], b[0]] for r in A for b in B if b[0] == r[0] and r[2] + b[0] != 'aa']),
+            ("select a1, a2 order by `${a2}`", None, None, lambda A: [[r[0], r[1]] for r in sorted(A, key=lambda r: r[1])]),
+            ("update a2 = `${a1}!` where `${a3}` == 'a'", None, None, lambda A: [[r[0], (r[0] + '!') if r[2] == 'a' else r[1], r[2]] for r in A]),
+            ("select `${a1}` where `${a2}` != `${a3}`", None, None, lambda A: [[r[0]] for r in A if r[1] != r[2]]),
+            ("select distinct `${a1}` where a2 != `${a1}`", None, None, lambda A: [[v] for v in dict.fromkeys(r[0] for r in A if r[1] != r[0])]),
+        ]
+        for n in range(spec['n']):
+            A = [[rng.choice(['a', 'b', 'ab', '', '10']) for _ in range(3)] for _ in range(rng.randrange(1, 7))]
+            q, cols, Bt, expf = T2[n % len(T2)]
+            reqs.append({'query': q, 'input': A, 'join': Bt, 'input_cols': cols, 'join_cols': None})
+            meta.append((q, A, expf(A)))
         outs = node.call({'op': 'query_batch', 'cases': reqs})['results']
         for (q, A, exp), o in zip(meta, outs):
             res.evaluations += 1
@@ -228,7 +249,7 @@ def leg_js_templates(res, spec):
 def summarize(tier, seed, m):
     shapes = sorted(k[6:] for k in m['counters'] if k.startswith('shape:'))
     return {
-        'rule': 'structured SELECT queries (1-4 items over fields in 5 spellings, typed expressions, literals, *, a.*, b.*, * EXCEPT, UNNEST; WHERE; INNER/LEFT JOIN with 1-3 key pairs incl. NR/bNR; TOP) generated with a systematic sweep over the 64 clause combinations plus seeded random choices, on random tables of str/None cells (ragged, empty, up to 40 rows, 12 columns), with and without header; each executed through rbql.query with probe iterator/writer/registry and compared (rows exactly and in order, header, error class + record number) with the reference interpreter; the language-neutral ones also on the JS engine; a typed front-ends leg: dataframes (int64 / float64 / bool / object columns, all-numeric frames, integers beyond 2**53, a named index, a two-level named index) through DataframeIterator and sqlite tables (INTEGER / REAL / TEXT / BLOB / untyped columns with NULLs) through SqliteRecordIterator, ten select / where shapes each (two of them with the bare cell as the predicate, over columns holding NaN, inf, 0, 0.0, empty strings and NULLs), every emitted field compared with the cell by value AND type; a JS template-literal leg: ten select / where shapes whose items are template literals with column references inside ${...} and quote characters around them. distinct_nontrivial = distinct (query text, tables) with a non-empty reference result or a predicted error.',
+        'rule': 'structured SELECT queries (1-4 items over fields in 5 spellings, typed expressions, literals, *, a.*, b.*, * EXCEPT, UNNEST; WHERE; INNER/LEFT JOIN with 1-3 key pairs incl. NR/bNR; TOP) generated with a systematic sweep over the 64 clause combinations plus seeded random choices, on random tables of str/None cells (ragged, empty, up to 40 rows, 12 columns), with and without header; each executed through rbql.query with probe iterator/writer/registry and compared (rows exactly and in order, header, error class + record number) with the reference interpreter; the language-neutral ones also on the JS engine; a typed front-ends leg: dataframes (int64 / float64 / bool / object columns, all-numeric frames, integers beyond 2**53, a named index, a two-level named index) through DataframeIterator and sqlite tables (INTEGER / REAL / TEXT / BLOB / untyped columns with NULLs) through SqliteRecordIterator, ten select / where shapes each (two of them with the bare cell as the predicate, over columns holding NaN, inf, 0, 0.0, empty strings and NULLs), every emitted field compared with the cell by value AND type; a JS template-literal leg: ten select / where shapes whose items are template literals with column references inside ${...} and quote characters around them, and eleven shapes (WHERE, ORDER BY, JOIN + WHERE, UPDATE, DISTINCT, named columns) whose variables occur only inside the template literals of one clause. distinct_nontrivial = distinct (query text, tables) with a non-empty reference result or a predicted error.',
         'required': ['py_cases', 'emitted_records_observed', 'js_cases', 'typed_front_end_runs:pandas', 'typed_front_end_runs:sqlite', 'js_template_literal_runs'],
         'extra': {'shapes_seen': shapes},
         'assumptions': ['rv/model/refsem.py is the relational semantics of the statement', 'expressions are drawn from the typed vocabulary of rv/model/qast.py'],
